@@ -33,7 +33,8 @@ Clause ==
   ELSE IF Ev.role # "tmp" THEN "UnexpectedOperation"
   ELSE IF ~Expected(Ev.op) THEN
        (IF Ev.op = "rename" THEN "WrittenSyncedAndModedBeforeRename"
-        ELSE IF Ev.op = "fsync" THEN "DataWrittenBeforeSync" ELSE "OpOrder")
+        ELSE IF Ev.op = "fsync" THEN "DataWrittenBeforeSync"
+        ELSE IF Ev.op = "close" /\ k = Idx("write") THEN "SyncedBeforeClose" ELSE "OpOrder")
   ELSE IF Ev.op = "open" /\ ~(Ev.same_dir /\ Ev.excl) THEN "TempInSameDir"
   ELSE IF Ev.op = "fsync" /\ nbytes # T.size THEN "CompleteBeforeSync"
   ELSE IF Ev.op = "chmod" /\ Ev.mode # T.omode THEN "ModePreserved"
